@@ -26,6 +26,10 @@ pub fn fault_error(kind: io::ErrorKind, text: &'static str) -> io::Error {
         io::ErrorKind::InvalidInput => io::Error::new(kind, FrameError::FrameDataMismatch { data: b":0000000000".to_vec(), expected: 2, actual: 1 }),
         io::ErrorKind::NotFound => io::Error::new(kind, FrameError::from(io::Error::new(io::ErrorKind::TimedOut, "the tunnel's own port timed out"))),
         io::ErrorKind::Unsupported => io::Error::new(kind, io::Error::new(io::ErrorKind::Interrupted, "an interrupted call inside the stream")),
+        // ... and two whose payload is an error that was ITSELF caused by an interrupted call (two levels down the source
+        // chain): the failure is a broken pipe / a reset, not something to retry
+        io::ErrorKind::BrokenPipe => io::Error::new(kind, FrameError::from(io::Error::new(io::ErrorKind::Interrupted, "the tunnel's own call was interrupted"))),
+        io::ErrorKind::ConnectionReset => io::Error::new(kind, WrappedIoBusError(io::Error::new(io::ErrorKind::Interrupted, "interrupted, two levels down"))),
         _ => io::Error::new(kind, text),
     }
 }
@@ -39,6 +43,8 @@ pub fn payload_intact(e: &io::Error) -> bool {
         io::ErrorKind::InvalidInput => matches!(inner.and_then(|x| x.downcast_ref::<FrameError>()), Some(FrameError::FrameDataMismatch { expected: 2, actual: 1, .. })),
         io::ErrorKind::NotFound => matches!(inner.and_then(|x| x.downcast_ref::<FrameError>()), Some(FrameError::Io { source }) if source.kind() == io::ErrorKind::TimedOut),
         io::ErrorKind::Unsupported => matches!(inner.and_then(|x| x.downcast_ref::<io::Error>()), Some(x) if x.kind() == io::ErrorKind::Interrupted),
+        io::ErrorKind::BrokenPipe => matches!(inner.and_then(|x| x.downcast_ref::<FrameError>()), Some(FrameError::Io { source }) if source.kind() == io::ErrorKind::Interrupted),
+        io::ErrorKind::ConnectionReset => matches!(inner.and_then(|x| x.downcast_ref::<WrappedIoBusError>()), Some(w) if w.0.kind() == io::ErrorKind::Interrupted),
         _ => true,
     }
 }
